@@ -34,6 +34,11 @@ def _eval(d, var, iv):
     if k == 'bin' and d['op'] in ('+', '-'):
         l, r = _eval(d['l'], var, iv), _eval(d['r'], var, iv)
         return (l[0] + r[0], l[1] + r[1]) if d['op'] == '+' else (l[0] - r[1], l[1] - r[0])
+    if k == 'call' and (d.get('name') or '').split('<')[0] in ('std::min', 'std::max') and len(d.get('args') or []) == 2:
+        l, r = _eval(d['args'][0], var, iv), _eval(d['args'][1], var, iv)
+        if (d.get('name') or '').split('<')[0] == 'std::min':
+            return (min(l[0], r[0]), min(l[1], r[1]))
+        return (max(l[0], r[0]), max(l[1], r[1]))
     return (-INF, INF)
 
 
